@@ -218,9 +218,8 @@ PROPS.update({
                          "string/constraint.rs, portgraph/constraint.rs, portgraph/constraint/mutex.rs, utils::sort_with_indices)"],
         "assumptions": COMMON_ASSUMPTIONS + ["IsConnected / HasNodeWeight are treated as opaque atoms in the brute-force faithfulness oracle (their truth is "
                                              "drawn per (predicate, argument values)); IsNotEqual is evaluated on the node assignment",
-                                             "deterministic reading (make_det trees, first satisfied child of the root only; Spec/TreeDet.v): theorems c10_pg_mutex_tree_det_faithful (smallest "
-                                             "constraint IsConnected / HasNodeWeight: every host, every binding injective on the keys) and c10_pg_ne_tree_det_faithful (smallest constraint "
-                                             "IsNotEqual, powerset tree: every node assignment); the oracle evaluates the same reading on concrete hosts / under every node assignment"],
+                                             "the first-satisfied-child reading of a make_det tree (Spec/TreeDet.v) is not part of the property (the traversal follows every satisfied transition "
+                                             "of a deterministic state): it is proved of the shipped trees (c10_*_det_faithful) and evaluated by the harness as information only"],
         "timeout": 3000,
         "explanation": "Theorems c10_*: valid indices, presence of the (index of the) smallest constraint and faithfulness are proved for "
                        "with_children, with_pairwise_mutex, with_transitive_mutex, with_powerset (for every valuation under which conditioned is an "
